@@ -746,3 +746,6 @@ def shrink(l):
     # dropping an operation after the crash point does not change what happens before it
     for i in range(len(ops) - 1, -1, -1):
         yield " ".join(t[:3] + [",".join(ops[:i] + ops[i + 1:]) + "@" + c] + t[4:])
+
+
+KNOWN_MUST_MATCH_MODEL = True   # inside a known finding's region the observation must still equal the model's (which reproduces the listed defect); see lib/vf/run.py
